@@ -13,9 +13,9 @@ using namespace asl;
 using vf::fmt;
 
 static int C_EXEC, C_POINTS, C_JOBS, C_STATES, C_SUBJOBS, C_PRUNED;
-static int W_PREEMPT, W_SERVED, W_SERVED_MODE[4], W_EARLYCLOSE, W_EARLY_MODE[2], W_LATE_NOT_SERVED, W_LATE_OTHER_ENDPOINT;
+static int W_PREEMPT, W_SERVED, W_SERVED_MODE[4], W_EARLYCLOSE, W_EARLY_MODE[2], W_LATE_NOT_SERVED, W_LATE_OTHER_ENDPOINT, C_LATE_CONNECTED, C_LATE_REFUSED;
 static int W_BLOCKING, W_BLOCKING_LOOP_THREAD_ALIVE, W_NOSTART, W_ACCEPTS_EQ, W_KEPT_CLOSED, W_TWO_INFLIGHT, W_SELECT_MULTI, W_AFTER_IDLE;
-static int W_STOP_INFLIGHT, W_STOP_POLLS, W_ACC_ALIVE, W_HANDLER_ALIVE, W_ACCEPT_FAIL, W_FAILED_SERVE, W_EPIPE;
+static int W_STOP_INFLIGHT, W_STOP_POLLS, W_ACC_ALIVE, W_HANDLER_ALIVE, W_ACCEPT_FAIL, C_FAILED_SERVE, W_EPIPE;
 static std::string g_case;
 static void onFatal(const char* what, const std::string& schedule) {
 	std::string w = what;
@@ -43,19 +43,20 @@ struct EchoSrv : public SocketServer {
 		// read a one-byte token (or see the peer close), echo it twice
 		if (client.waitInput(2.0)) {
 			char t = 0; int n = client.read(&t, 1);
-			if (n == 1) { if (t >= '0' && t < '8') { g.perConn[t - '0']++; if (g_modeOf[t - '0'] == 3) g.afterIdle++; } vsched::point(); client.write(&t, 1); client.write(&t, 1); }
+			if (n == 1) { if (t >= '0' && t < '8') { g.perConn[t - '0']++; if (g_modeOf[t - '0'] == 3 && vnet::stat(vnet::ST_SELECT_TIMEOUTS) > 0) g.afterIdle++; } vsched::point(); client.write(&t, 1); client.write(&t, 1); }
 		}
 		if (!failed && client.handle() < 900) g.badFd++;
 		g.inServe--; g.ends++;
 	}
 };
-// client modes: 0 connect, send the token, wait for the echo; 1 connect and close; 2 connect, send, close; 3 sleep 2.5 s (the accept
-// loop's 2 s select expires idle meanwhile), then as 0
+// client modes: 0 connect, send the token, wait for the echo; 1 connect and close; 2 connect, send, close; 3 sleep until the accept loop's
+// select has expired idle (2.5 s with the 2 s timeout of the present loop; whatever the timeout is, at most 15 s), then as 0
 struct Client : public Thread {
 	int id, mode, port; const char* path; int connected, echoed;
 	Client() : id(0), mode(0), port(0), path(0), connected(0), echoed(0) {}
 	void run() {
-		if (mode == 3) asl::sleep(2.5);
+		// the length of the loop's select timeout is the library's business: wait in steps of 2.5 s until one idle timeout has been seen
+		if (mode == 3) for (int k = 0; k < 6; k++) { asl::sleep(2.5); if (vnet::stat(vnet::ST_SELECT_TIMEOUTS) > 0) break; }
 		Socket s;
 		bool ok = path ? s.connect(String(path)) : s.connect("127.0.0.1", port);
 		if (!ok) { s.close(); return; }
@@ -99,13 +100,13 @@ static bool parseScn(const std::string& name, Scn& s) {
 
 struct Run { // one scenario under exploration: body() is one execution, after() judges it
 	Scn sc; std::string kase, verdict;
-	uint64_t stepsAtDelete; int harnessAliveAtDelete, acceptAliveAtDelete; bool deleted;
+	uint64_t stepsAtDelete; int harnessAliveAtDelete, handlersAtDelete; bool deleted;
 	const char* clientPath(int i) const { return (sc.unixPath == 1 || (sc.unixPath == 2 && i == 1)) ? PATH : 0; }
 	void body() {
 		vf::asan_clear(); memset((void*)&g, 0, sizeof g);
 		vnet::reset(4); vnet::enable(true); vnet::set_limits(0, 0); vnet::fail_accept(sc.acceptFail); g_acceptMayFail = sc.acceptFail != 0; memset(g_modeOf, 0, sizeof g_modeOf); for (int i = 0; i < sc.nclients; i++) g_modeOf[i] = sc.modes[i];
 		vsched::set_early_timeouts(!sc.joinFirst); // joinFirst: a client's 3 s wait for its echo may only expire when nothing else can run
-		verdict.clear(); deleted = false; stepsAtDelete = 0; harnessAliveAtDelete = acceptAliveAtDelete = 0;
+		verdict.clear(); deleted = false; stepsAtDelete = 0; harnessAliveAtDelete = handlersAtDelete = 0;
 		{
 			EchoSrv* srv = new EchoSrv();
 			bool bound = sc.unixPath == 1 ? srv->bindPath(PATH) : srv->bind("127.0.0.1", 9100);
@@ -125,7 +126,7 @@ struct Run { // one scenario under exploration: body() is one execution, after()
 			if (sc.kind == BLOCKING) {
 				st.start();
 				// let the starting thread get into start(): a caller can only stop a server it knows to be running
-				for (int k = 0; k < 4 && !srv->running(); k++) vsched::yield_spin(0);
+				for (int k = 0; k < 32 && !srv->running() && !st.finished(); k++) vsched::yield_spin(0); // however many steps start() takes before it says so
 				if (!srv->running()) verdict += "start() is executing the accept loop in another thread but running() is false; ";
 			}
 			else srv->start(true);
@@ -162,14 +163,17 @@ struct Run { // one scenario under exploration: body() is one execution, after()
 				bool other = sc.unixPath == 2 && sc.nclients == 1; // the endpoint that nobody has used yet
 				late.id = 7; late.mode = 0; late.port = 9100; late.path = (sc.unixPath == 1 || other) ? PATH : 0; late.start(); late.join();
 				if (late.echoed) verdict += "a client that connected after stop(true) returned was served; ";
-				else if (late.connected) { vf::add(W_LATE_NOT_SERVED); if (other) vf::add(W_LATE_OTHER_ENDPOINT); }
+				else { // whether a stopped server still listens (the client waits in the backlog) or refuses the connection is its own business
+					vf::add(W_LATE_NOT_SERVED); if (other) vf::add(W_LATE_OTHER_ENDPOINT);
+					vf::add(late.connected ? C_LATE_CONNECTED : C_LATE_REFUSED);
+				}
 			}
 			// which threads are still on their way out when the server is destroyed (the window the memory oracle is for); a thread whose
 			// finished flag is set has nothing left but its exit, without a schedule point in between
 			stepsAtDelete = vsched::steps(); deleted = true;
 			for (int i = 0; i < sc.nclients; i++) if (!c[i].finished()) harnessAliveAtDelete++;
 			if (sc.kind == BLOCKING && !st.finished()) harnessAliveAtDelete++;
-			if (srv->_thread && !((Thread*)(void*)srv->_thread)->finished()) acceptAliveAtDelete = 1;
+			handlersAtDelete = sc.sequential ? 0 : g.starts; // a concurrent server's handler threads: each has entered serve() by now (or stop(true) has been reported above)
 			delete srv; g.serverFreed = 1;
 			if (sc.kind == BLOCKING) st.join();
 			for (int i = 0; i < sc.nclients; i++) c[i].join();
@@ -192,7 +196,7 @@ struct Run { // one scenario under exploration: body() is one execution, after()
 		if (vnet::stat(vnet::ST_SIGPIPE_SENDS)) verdict += fmt("%ld send() call(s) to a closed peer without MSG_NOSIGNAL: SIGPIPE would end the process; ", vnet::stat(vnet::ST_SIGPIPE_SENDS));
 		if (g.maxInServe >= 2) vf::add(W_TWO_INFLIGHT);
 		if (g.afterIdle) vf::add(W_AFTER_IDLE, g.afterIdle);
-		if (g.failedServes) vf::add(W_FAILED_SERVE, g.failedServes);
+		if (g.failedServes) vf::add(C_FAILED_SERVE, g.failedServes);
 		if (vnet::stat(vnet::ST_ACCEPT_FAILURES)) vf::add(W_ACCEPT_FAIL);
 		if (vnet::stat(vnet::ST_SELECT_MULTI)) vf::add(W_SELECT_MULTI);
 		if (vnet::stat(vnet::ST_SENDS_TO_CLOSED_PEER)) vf::add(W_EPIPE);
@@ -215,9 +219,13 @@ struct Run { // one scenario under exploration: body() is one execution, after()
 		if (leaked) verdict += fmt("%d descriptor(s) still open after every thread ended; ", leaked);
 		if (deleted && stepsAtDelete <= x.points.size()) {
 			int exited = 0; for (uint64_t i = 0; i < stepsAtDelete; i++) if (x.points[i].kind == 8) exited++;
+			// threads of the server's own that had not ended yet. Which of them is the accept thread is not looked up in the server's private
+			// fields: it is certainly among them when more are alive than handler threads were ever made, and a handler is certainly among
+			// them when more are alive than the one accept thread of start(true)
 			int serverAlive = (x.threads - 1) - exited - harnessAliveAtDelete;
-			if (acceptAliveAtDelete) vf::add(W_ACC_ALIVE);
-			if (serverAlive - acceptAliveAtDelete > 0) vf::add(W_HANDLER_ALIVE);
+			int acceptThreads = sc.kind == NONBLOCKING ? 1 : 0;
+			if (acceptThreads && serverAlive > handlersAtDelete) vf::add(W_ACC_ALIVE);
+			if (serverAlive > acceptThreads) vf::add(W_HANDLER_ALIVE);
 		}
 		if (!verdict.empty()) vf::violation("server_contract", kase + ": " + verdict + "schedule " + x.trace(), kase + "|" + x.trace());
 	}
@@ -273,14 +281,16 @@ int main(int argc, char** argv) {
 	W_PREEMPT = vf::counter("w.executions_with_preemption"); W_SERVED = vf::counter("w.connections_served");
 	W_SERVED_MODE[0] = vf::counter("w.served_concurrent_tcp"); W_SERVED_MODE[1] = vf::counter("w.served_concurrent_unix"); W_SERVED_MODE[2] = vf::counter("w.served_sequential_tcp"); W_SERVED_MODE[3] = vf::counter("w.served_sequential_unix");
 	W_EARLYCLOSE = vf::counter("w.clients_closing_early"); W_EARLY_MODE[0] = vf::counter("w.early_close_concurrent"); W_EARLY_MODE[1] = vf::counter("w.early_close_sequential");
-	W_LATE_NOT_SERVED = vf::counter("w.late_clients_connected_not_served"); W_LATE_OTHER_ENDPOINT = vf::counter("w.late_client_on_second_endpoint");
+	W_LATE_NOT_SERVED = vf::counter("w.late_clients_not_served"); W_LATE_OTHER_ENDPOINT = vf::counter("w.late_client_on_second_endpoint");
+	C_LATE_CONNECTED = vf::counter("late_clients_left_in_backlog"); C_LATE_REFUSED = vf::counter("late_clients_refused");
 	W_BLOCKING = vf::counter("w.blocking_start_stopped"); W_BLOCKING_LOOP_THREAD_ALIVE = vf::counter("w.blocking_start_thread_still_returning_at_stop_return");
 	W_NOSTART = vf::counter("w.never_started_server_destroyed");
 	W_ACCEPTS_EQ = vf::counter("w.accepts_equal_serve_entries"); W_KEPT_CLOSED = vf::counter("w.kept_socket_closed_by_server"); W_TWO_INFLIGHT = vf::counter("w.two_handlers_in_flight");
 	W_SELECT_MULTI = vf::counter("w.select_round_with_two_active_listeners"); W_AFTER_IDLE = vf::counter("w.served_after_idle_select_timeout");
 	W_STOP_INFLIGHT = vf::counter("w.stop_called_with_serve_in_flight"); W_STOP_POLLS = vf::counter("w.stop_polled_more_than_once");
 	W_ACC_ALIVE = vf::counter("w.accept_thread_alive_at_delete"); W_HANDLER_ALIVE = vf::counter("w.handler_thread_alive_at_delete");
-	W_ACCEPT_FAIL = vf::counter("w.accept_failures_injected"); W_FAILED_SERVE = vf::counter("w.serve_calls_on_failed_accept"); W_EPIPE = vf::counter("w.sends_to_closed_peer");
+	W_ACCEPT_FAIL = vf::counter("w.accept_failures_injected"); W_EPIPE = vf::counter("w.sends_to_closed_peer");
+	C_FAILED_SERVE = vf::counter("serve_calls_on_failed_accept"); // not a witness: a server may as well skip an accept() that failed
 	vsched::set_fatal_handler(onFatal);
 	vsched::set_state_probe(vnet::state_hash);
 	bool T = vf::opt.thorough();
